@@ -845,23 +845,57 @@ func clientSocketOccurrences(name string, early []string, late []string, bound i
 		sock.OnEvent("e", func() { v.Do(func() { counts[0]++ }) })
 		sock.OnEvent("e", func() { v.Do(func() { counts[1]++ }) })
 		sock.OnceEvent("e", func() { v.Do(func() { counts[2]++ }) })
+		// the same three handlers on an event that carries an attachment: every handler decodes the packet
+		// for itself, and each must get the bytes
+		okBin := func(b sio.Binary) bool { return string(b) == "\x07\x08" }
+		sock.OnEvent("b", func(b sio.Binary) {
+			if okBin(b) {
+				v.Do(func() { counts[0]++ })
+			}
+		})
+		sock.OnEvent("b", func(b sio.Binary) {
+			if okBin(b) {
+				v.Do(func() { counts[1]++ })
+			}
+		})
+		sock.OnceEvent("b", func(b sio.Binary) {
+			if okBin(b) {
+				v.Do(func() { counts[2]++ })
+			}
+		})
+		send := func(fr string) {
+			if fr == "ATTACHMENT" {
+				ssock.Send(vrig.Bin([]byte{7, 8}))
+				return
+			}
+			ssock.Send(vrig.Msg(fr))
+		}
+		occurrences := func(l []string) int {
+			n := 0
+			for _, fr := range l {
+				if fr != "ATTACHMENT" {
+					n++
+				}
+			}
+			return n
+		}
 		connected := false
 		sock.OnConnect(func() { v.Do(func() { connected = true }) })
 		sock.Connect()
 		vsched.GoQuiet("raw-server", func() {
 			vsched.Await(func() bool { return gotConnect && ssock != nil })
 			for _, fr := range early {
-				ssock.Send(vrig.Msg(fr))
+				send(fr)
 			}
 			ssock.Send(vrig.Msg(`0{"sid":"sid0"}`))
 			vsched.Await(func() bool { return connected })
 			for _, fr := range late {
-				ssock.Send(vrig.Msg(fr))
+				send(fr)
 			}
 		})
 		return func() vx.Result {
 			var r vx.Result
-			n := len(early) + len(late)
+			n := occurrences(early) + occurrences(late)
 			r.Outcome = fmt.Sprint(counts)
 			ctx := fmt.Sprintf("the endpoint sent %q before its CONNECT reply and %q after it; the two On handlers of 'e' ran %d and %d times, the Once handler %d time(s)", early, late, counts[0], counts[1], counts[2])
 			if counts[0] != n || counts[1] != n {
@@ -897,7 +931,9 @@ func scenarios(tier string) []*vx.Scenario {
 		clientSocketOccurrences("ClientSocket/occurrences-after-connect", nil, []string{`2["e"]`, `25["e"]`}, 1),
 		clientSocketOccurrences("ClientSocket/occurrence-buffered-before-the-CONNECT-reply", []string{`2["e"]`}, []string{`2["e"]`}, 1),
 		clientSocketOccurrences("ClientSocket/occurrence-with-ack-id-buffered-before-the-CONNECT-reply", []string{`27["e"]`}, []string{`2["e"]`}, 1),
-		clientSocketOccurrences("ClientSocket/two-buffered-occurrences-with-and-without-ack-id", []string{`27["e"]`, `2["e"]`}, []string{`28["e"]`}, 1))
+		clientSocketOccurrences("ClientSocket/two-buffered-occurrences-with-and-without-ack-id", []string{`27["e"]`, `2["e"]`}, []string{`28["e"]`}, 1),
+		clientSocketOccurrences("ClientSocket/occurrences-with-an-attachment-after-connect", nil, []string{`51-["b",{"_placeholder":true,"num":0}]`, "ATTACHMENT", `51-["b",{"_placeholder":true,"num":0}]`, "ATTACHMENT"}, 1),
+		clientSocketOccurrences("ClientSocket/occurrence-with-an-attachment-buffered-before-the-CONNECT-reply", []string{`51-["b",{"_placeholder":true,"num":0}]`, "ATTACHMENT"}, []string{`51-3["b",{"_placeholder":true,"num":0}]`, "ATTACHMENT"}, 1))
 	if tier == "thorough" {
 		s = append(s, concScenario("handlerStore/3fires-off-on", 3, true, true))
 	}
